@@ -285,6 +285,7 @@ func NewUpstream(addr string, opt Opt) (_ Upstream, err error) {
 			t2.ReadIdleTimeout = time.Second * 30
 			t2.PingTimeout = time.Second * 5
 			t = t1
+			addonCloser = closerFunc(func() error { t1.CloseIdleConnections(); return nil })
 		}
 		opt := transport.DoHTransportOpts{
 			EndPointUrl:  addrURL.String(),
@@ -363,6 +364,10 @@ func NewUpstream(addr string, opt Opt) (_ Upstream, err error) {
 		return nil, fmt.Errorf("unsupported protocol [%s]", addrURL.Scheme)
 	}
 }
+
+type closerFunc func() error
+
+func (f closerFunc) Close() error { return f() }
 
 type udpWithFallback struct {
 	u *transport.PipelineTransport
